@@ -12,11 +12,13 @@ import (
 	"math/big"
 	"os"
 	"strings"
+	"time"
 
 	"github.com/ChainSafe/sygma-relayer/chains"
 	"github.com/ChainSafe/sygma-relayer/chains/btc"
 	btcListener "github.com/ChainSafe/sygma-relayer/chains/btc/listener"
 	"github.com/ChainSafe/sygma-relayer/chains/evm/calls/events"
+	"github.com/ChainSafe/sygma-relayer/chains/evm/listener/depositHandlers"
 	"github.com/ChainSafe/sygma-relayer/chains/evm/listener/eventHandlers"
 	subListenerR "github.com/ChainSafe/sygma-relayer/chains/substrate/listener"
 	"github.com/btcsuite/btcd/btcjson"
@@ -179,6 +181,45 @@ func (c c05BtcConn) GetBlockVerboseTx(*chainhash.Hash) (*btcjson.GetBlockVerbose
 }
 func (c c05BtcConn) GetBestBlockHash() (*chainhash.Hash, error) { return &chainhash.Hash{}, nil }
 
+// a call that has not returned after 10 s is a hang (on the unchanged tree calls take microseconds); once three hangs
+// have been seen in this run the verdict is clear and further waits are cut to 1 s to keep the run short
+var c05Hangs int
+
+func c05HangWait() time.Duration {
+	if c05Hangs >= 3 {
+		return time.Second
+	}
+	return 10 * time.Second
+}
+
+// ---- fakes for evmdeposits
+type c05Matcher struct{}
+
+func (c05Matcher) GetHandlerAddressForResourceID(rid [32]byte) (common.Address, error) {
+	switch rid[0] {
+	case 0xa:
+		return common.Address{0xa}, nil
+	case 0xb:
+		return common.Address{0xb}, nil // bound on chain, but no handler function registered here
+	}
+	return common.Address{}, errRPC
+}
+
+type c05OkHandler struct{}
+
+func (c05OkHandler) HandleDeposit(sourceID, destID uint8, nonce uint64, resourceID [32]byte, calldata, handlerResponse []byte, messageID string, timestamp time.Time) (*message.Message, error) {
+	return message.NewMessage(sourceID, destID, nil, messageID, "t", timestamp), nil
+}
+
+type c05DepListener struct {
+	c05EvmListener
+	ds []*events.Deposit
+}
+
+func (l *c05DepListener) FetchDeposits(ctx context.Context, a common.Address, s, e *big.Int) ([]*events.Deposit, error) {
+	return l.ds, nil
+}
+
 func errOut(err error) string {
 	if err != nil {
 		return "err"
@@ -220,6 +261,70 @@ func init() {
 		}
 		return strings.Join(out, "|")
 	}
+	// evmdeposits <calls>   calls '/'-separated, each a ','-separated list of deposits: r (resource with a registered
+	//   handler) | u (resource bound on-chain to a handler address this relayer has no handler function for) | m (the
+	//   resource lookup itself fails);  '-' = a range without deposits
+	//   => per call `ok:<messages forwarded>` | `err` | `hang`, ';'-separated. ONE DepositEventHandler + ONE real
+	//   ETHDepositHandler serve the whole sequence (like the listener's handler objects do); every call is also made on a
+	//   fresh pair and a difference is printed as `<long-lived>!<fresh>`.
+	ops["C05.evmdeposits"] = func(a []string) string {
+		mk := func() (*eventHandlers.DepositEventHandler, *c05DepListener, chan []*message.Message) {
+			dh := depositHandlers.NewETHDepositHandler(c05Matcher{})
+			dh.RegisterDepositHandler(common.Address{0xa}.Hex(), c05OkHandler{})
+			l := &c05DepListener{}
+			ch := make(chan []*message.Message, 64)
+			return eventHandlers.NewDepositEventHandler(l, dh, common.Address{}, 1, ch), l, ch
+		}
+		call := func(eh *eventHandlers.DepositEventHandler, l *c05DepListener, ch chan []*message.Message, i int, spec string) string {
+			l.ds = nil
+			for j, k := range items(spec, ",") {
+				rid := map[string][32]byte{"r": {0xa}, "u": {0xb}, "m": {0xc}}[k]
+				l.ds = append(l.ds, &events.Deposit{DestinationDomainID: 2, DepositNonce: uint64(100*i + j), ResourceID: rid})
+			}
+			done := make(chan error, 1)
+			go func() { done <- eh.HandleEvents(big.NewInt(int64(5*i)), big.NewInt(int64(5*i+4))) }()
+			select {
+			case err := <-done:
+				if err != nil {
+					return "err"
+				}
+			case <-time.After(c05HangWait()):
+				c05Hangs++
+				return "hang"
+			}
+			want, n := strings.Count(spec, "r"), 0
+			deadline := time.After(5 * time.Second)
+			for n < want {
+				select {
+				case ms := <-ch:
+					n += len(ms)
+				case <-deadline:
+					return "ok:" + itoa(n)
+				}
+			}
+			return "ok:" + itoa(n)
+		}
+		eh, l, ch := mk()
+		out := []string{}
+		hung := false
+		for i, spec := range strings.Split(a[0], "/") {
+			r := "hang"
+			if !hung {
+				r = call(eh, l, ch, i, spec)
+			}
+			if r == "hang" {
+				hung = true // the object is stuck; do not wait another time-out per call
+				out = append(out, r)
+				continue
+			}
+			feh, fl, fch := mk()
+			if f := call(feh, fl, fch, i, spec); f != r {
+				r += "!" + f
+			}
+			out = append(out, r)
+		}
+		return strings.Join(out, ";")
+	}
 	// hfetch <handler> <failAt>  =>  ok | err     (does a failed fetch make HandleEvents fail?)
 	ops["C05.hfetch"] = func(a []string) string {
 		ch := make(chan []*message.Message, 8)
@@ -254,6 +359,38 @@ func init() {
 }
 
 // genLife produces one lifetime script; returns it and the head reached.
+// genLifeReal: like genLife, with the fault POINT (first / second node read of the handler) and error KIND of every
+// scripted handler failure chosen at random, runs of 1..4 identical failing rounds, and (BTC) re-organisations that
+// switch the active branch between rounds.
+func genLifeReal(g *G, kind string, k int64, nh int, head int64, maxRounds int) (string, int64) {
+	l, h := genLife(g, kind, k, nh, head, maxRounds, true)
+	if l == "-" {
+		return l, h
+	}
+	branch := 0
+	out := []string{}
+	for _, r := range strings.Split(l, ";") {
+		f := strings.Split(r, ":")
+		if kind == "btc" && f[0] != "E" && f[0] != "F" {
+			if g.Intn(4) == 0 {
+				branch = (branch + 1) % 3
+			}
+			f[0] += "~1~" + itoa(branch)
+		}
+		reps := 1
+		if f[1] != "n" && !strings.HasPrefix(f[1], "p") {
+			f[1] += g.Pick([]string{"a", "b", "b"}) + g.Pick([]string{"g", "t", "t", "w", "u", "n", "c"})
+			if len(f) == 3 {
+				reps = 1 + g.Intn(4)
+			}
+		}
+		for i := 0; i < reps; i++ {
+			out = append(out, strings.Join(f, ":"))
+		}
+	}
+	return strings.Join(out, ";"), h
+}
+
 func genLife(g *G, kind string, k int64, nh int, head int64, maxRounds int, allowCrash bool) (string, int64) {
 	n := g.Intn(maxRounds + 1)
 	rs := []string{}
@@ -299,6 +436,24 @@ func genC05(g *G) {
 	}
 	for _, f := range []string{"-", "hash", "block", "nilblock"} {
 		g.Emit("hfetch", "btcdeposit", f)
+	}
+	// one deposit-handler object over a sequence of ranges with resolvable and unresolvable deposits
+	alpha := []string{"-", "r", "u", "m", "r,r", "u,r", "r,u", "m,r", "u,u", "r,u,r"}
+	for _, x := range alpha {
+		for _, y := range alpha {
+			g.Emit("evmdeposits", x+"/"+y+"/r")
+		}
+	}
+	for i := 0; i < g.Count(60, 1500); i++ {
+		cs := []string{}
+		for j := 0; j < 2+g.Intn(5); j++ {
+			ds := []string{}
+			for k := 0; k < g.Intn(4); k++ {
+				ds = append(ds, g.Pick([]string{"r", "r", "u", "m"}))
+			}
+			cs = append(cs, joinOr(ds, ","))
+		}
+		g.Emit("evmdeposits", strings.Join(cs, "/"))
 	}
 	// CalculateStartingBlock grid
 	for s := int64(0); s <= 20; s++ {
@@ -398,6 +553,39 @@ func genC05(g *G) {
 			}
 		}
 	}
+	// every error KIND at every fault POINT of every handler, 1..4 failing rounds in a row, then clean rounds
+	for _, kind := range kinds {
+		nh := realStackSize(kind)
+		for idx := 0; idx < nh; idx++ {
+			for _, pt := range []string{"a", "b"} {
+				for _, ek := range []string{"g", "t", "w", "u", "n", "c"} {
+					for reps := 1; reps <= 4; reps++ {
+						if !g.Thorough() && reps == 2 {
+							continue
+						}
+						h := "40"
+						rs := []string{h + ":n:s"}
+						for i := 0; i < reps; i++ {
+							rs = append(rs, h+":"+itoa(idx)+pt+ek+":s")
+						}
+						rs = append(rs, h+":n:s", h+":n:s")
+						g.Emit("lifereal", kind, "1", "2", itoa(nh), "4", "-", "none", "0", strings.Join(rs, ";"))
+					}
+				}
+			}
+		}
+	}
+	// BTC: re-organisations of not yet handled blocks between two scan steps (the active branch changes)
+	for _, sw := range []string{"0,0,1,1", "0,1,1,1", "0,1,2,2", "0,1,0,1", "1,1,0,0"} {
+		for _, conf := range []string{"1", "2"} {
+			b := strings.Split(sw, ",")
+			rs := []string{}
+			for i, br := range b {
+				rs = append(rs, itoa(10+i)+"~1~"+br+":n:s")
+			}
+			g.Emit("lifereal", "btc", conf, "1", "1", "5", "-", "none", "0", strings.Join(rs, ";")+"|"+"20~1~"+b[3]+":n:s;21~1~"+b[3]+":n:s")
+		}
+	}
 	for i := 0; i < g.Count(300, 8000); i++ {
 		kind := kinds[g.Intn(3)]
 		k := int64(1 + g.Intn(5))
@@ -415,7 +603,7 @@ func genC05(g *G) {
 		ls := []string{}
 		for j := 0; j < nl; j++ {
 			var l string
-			l, head = genLife(g, kind, k, nh, head, g.Count(6, 10), true)
+			l, head = genLifeReal(g, kind, k, nh, head, g.Count(6, 10))
 			ls = append(ls, l)
 		}
 		g.Emit("lifereal", kind, "1", itoa64(k), itoa(nh), itoa64(cfgStart), g.Pick([]string{"-", "-", "-", "F"}), stored0, itoa64(head), strings.Join(ls, "|"))
